@@ -2480,6 +2480,8 @@ val s_WalletDataHighloadV2 : schema
 
 val s_WalletDataV5R1 : schema
 
+val s_AddressWithWorkchain : schema
+
 val ext_in_value : z -> bits -> n -> value option -> ctree -> value
 
 val schema_table : (string * schema) list
